@@ -85,9 +85,10 @@ def _worker_init():
 def _run_chunk(args):
     prop, root_seed, tier, start, count, deadline, recheck_every, opts = args
     mod = prop_module(prop)
+    known = load_known()
     out = {"cases": 0, "runs": 0, "violations": [], "stats": {}, "fps": set(), "ntfps": set(),
            "scen": set(), "harness": [], "samples": [], "recheck": 0, "recheck_bad": [],
-           "sim_time": 0.0, "steps": 0, "aborted": 0, "completed": 0}
+           "sim_time": 0.0, "steps": 0, "aborted": 0, "completed": 0, "known": {}}
     faulthandler.dump_traceback_later(max(30.0, deadline - time.time() + 60.0), exit=True)
     try:
         for i in range(start, start + count):
@@ -114,6 +115,10 @@ def _run_chunk(args):
             out["ntfps"].update(res.get("ntfps", ()))
             out["scen"].update(res.get("scen", ()))
             for v in res.get("violations", []):
+                e = match_known(prop, v, known)
+                if e is not None:
+                    out["known"][e["id"]] = out["known"].get(e["id"], 0) + 1
+                    continue
                 if len(out["violations"]) < 40:
                     out["violations"].append({"i": i, "seed": seed, "case": v.pop("case", case), **v})
                 else:
@@ -141,7 +146,8 @@ def campaign(prop: str, tier: str, root_seed: int, budget_s: float, jobs: int,
     deadline = t0 + budget_s
     agg = {"cases": 0, "runs": 0, "violations": [], "stats": {}, "fps": set(), "ntfps": set(),
            "scen": set(), "harness": [], "samples": [], "recheck": 0, "recheck_bad": [],
-           "sim_time": 0.0, "steps": 0, "aborted": 0, "completed": 0, "timeouts": 0}
+           "sim_time": 0.0, "steps": 0, "aborted": 0, "completed": 0, "timeouts": 0,
+           "known": {}}
     ctx = mp.get_context("fork")
     next_i = 0
     recheck_every = opts.get("recheck_every", 20)
@@ -182,6 +188,8 @@ def campaign(prop: str, tier: str, root_seed: int, budget_s: float, jobs: int,
                     agg[k] += r[k]
                 for k, v in r["stats"].items():
                     agg["stats"][k] = agg["stats"].get(k, 0) + v
+                for k, v in r["known"].items():
+                    agg["known"][k] = agg["known"].get(k, 0) + v
                 for k in ("fps", "ntfps", "scen"):
                     agg[k] |= r[k]
                 agg["violations"].extend(r["violations"])
